@@ -9,7 +9,7 @@ CONSTANTS
   MaxCrash = 1
   EnableBranch = TRUE
   SidecarNextSeq = TRUE
-  LineageLocked = FALSE
+  LineageLocked = TRUE
   SecondInput = FALSE
   Tasks = {}
   TaskGuarded = TRUE
